@@ -415,10 +415,22 @@ func run(e *core.Env) {
 		// or drops the exchange again. Until an exchange completes nothing about what was
 		// accepted before may be forgotten.
 		if tp.Chance(1, 50) {
-			if tp.Chance(2, 3) {
+			switch tp.Intn(5) {
+			case 0, 1:
 				_, _, _ = rSess.Encryption().InitKeyClientStart()
-			} else {
+			case 2:
 				rSess.Encryption().InitCleanup()
+			case 3:
+				// a key setup that is *refused*: the sender's hello request carries an exchange
+				// key that is a low-order point (32 zero bytes pass as a key and fail the
+				// exchange). A refused setup installs nothing, and forgets nothing.
+				_, _, _ = rSess.Encryption().InitKeyServer(make([]byte, 32), kxt)
+				e.Probe("key_setup_refused_on_live_session")
+			default:
+				// ... or a completion nobody asked for (no exchange pending)
+				rSess.Encryption().InitCleanup()
+				_ = rSess.Encryption().InitKeyClientComplete(make([]byte, 32), kxt)
+				e.Probe("key_setup_refused_on_live_session")
 			}
 			e.Fault("key_exchange_started_on_live_session")
 		}
